@@ -465,10 +465,165 @@ class Body:
                 out.write('    %s\n' % k)
 
 
+def _renumber(x, off_l, off_b):
+    """deep copy of a piece of body JSON with local indices shifted by off_l and block indices by off_b"""
+    if isinstance(x, list):
+        return [_renumber(v, off_l, off_b) for v in x]
+    if not isinstance(x, dict):
+        return x
+    out = {}
+    for k, v in x.items():
+        if k == 'l' and isinstance(v, int) and not isinstance(v, bool):
+            out[k] = v + off_l                     # place local
+        elif k == 'idx' and isinstance(v, int) and not isinstance(v, bool) and set(x.keys()) <= {'idx'}:
+            out[k] = v + off_l                     # Index(local) projection element
+        elif k in ('target', 'unwind', 'otherwise') and isinstance(v, int) and not isinstance(v, bool):
+            out[k] = v + off_b
+        elif k == 'targets' and isinstance(v, list):
+            out[k] = [dict(t, bb=t['bb'] + off_b) for t in v]
+        else:
+            out[k] = _renumber(v, off_l, off_b)
+    return out
+
+
+def inline_helpers(body, is_helper, depth=2, max_blocks=400):
+    """A copy of `body` in which every call to a crate-local function accepted by `is_helper(callee_body)` is replaced
+    by the callee's own blocks (arguments assigned to the callee's parameters, its return value assigned to the call's
+    destination), recursively up to `depth`.  Lets a rule see through `extract function` refactors.  Calls to
+    recursive functions and to functions without a body in the facts are left alone."""
+    facts = body.facts
+    j = json.loads(json.dumps(body.j))
+    changed = False
+    work = list(range(len(j['blocks'])))
+    budget = {'d': {}}
+    level = {i: 0 for i in work}
+    while work:
+        bi = work.pop(0)
+        blk = j['blocks'][bi]
+        t = blk['term']
+        if t.get('k') != 'call' or 'target' not in t:
+            continue
+        cid = t.get('resolved') or t.get('callee')
+        cb = facts.bodies.get(cid)
+        if cb is None or cb.id == body.id or cb.j.get('kind') == 'closure' or level[bi] >= depth:
+            continue
+        if len(cb.blocks) + len(j['blocks']) > max_blocks or not is_helper(cb):
+            continue
+        # no self-recursion in the callee
+        if any((x['term'].get('resolved') or x['term'].get('callee')) == cb.id for x in cb.blocks if x['term'].get('k') == 'call'):
+            continue
+        if len(t['args']) != cb.nargs:
+            continue
+        off_l, off_b = len(j['locals']), len(j['blocks'])
+        cj = _renumber(cb.j['blocks'], off_l, off_b)
+        j['locals'].extend(json.loads(json.dumps(cb.j['locals'])))
+        sp = t.get('span')
+        for i, a in enumerate(t['args']):
+            blk['stmts'].append({'assign': {'l': off_l + 1 + i}, 'rv': {'k': 'use', 'op': a}, 'span': sp})
+        for ci, cblk in enumerate(cj):
+            ct = cblk['term']
+            if ct.get('k') == 'return':
+                cblk['stmts'].append({'assign': t['dest'], 'rv': {'k': 'use', 'op': {'move': {'l': off_l}}}, 'span': sp})
+                cblk['term'] = {'k': 'goto', 'target': t['target'], 'span': sp}
+            cblk['inlined_from'] = cb.id
+            j['blocks'].append(cblk)
+            level[off_b + ci] = level[bi] + 1
+            work.append(off_b + ci)
+        blk['term'] = {'k': 'goto', 'target': off_b, 'span': sp, 'inlined_call': cb.id}
+        changed = True
+    if not changed:
+        return body
+    nb = Body(facts, j)
+    nb.inlined = True
+    return nb
+
+
+_FIELD_TABLE = None
+
+
+def _field_table():
+    global _FIELD_TABLE
+    if _FIELD_TABLE is None:
+        p = os.path.join(os.path.dirname(os.path.abspath(__file__)), 'tables', 'private_fields.json')
+        try:
+            with open(p) as f:
+                _FIELD_TABLE = json.load(f)
+        except OSError:
+            _FIELD_TABLE = {}
+    return _FIELD_TABLE
+
+
+def apply_field_aliases(j):
+    """Rename-proofing.  For every ADT variant listed in tables/private_fields.json (the reviewed tree's non-public
+    fields): if the tree under analysis declares the same variant with the same number of fields and the same field
+    *types in the same order*, non-public fields whose name differs are read under the reviewed name (ADT facts, place
+    projections and aggregates).  Public fields are never aliased (renaming one is an API change), and a variant whose
+    shape changed is left as it is.  Returns {adt: {variant: {actual: reviewed}}} for the evidence."""
+    tab = _field_table().get(j.get('crate'), {})
+    amap = {}
+    for a in j['adts']:
+        rv = tab.get(a['path'])
+        if not rv:
+            continue
+        for v in a['variants']:
+            want = rv.get(v['name'])
+            if not want or len(want) != len(v['fields']):
+                continue
+            if any(w[1] != f['ty'] for w, f in zip(want, v['fields'])):
+                continue
+            ren = {}
+            for w, f in zip(want, v['fields']):
+                if w[0] != f['name'] and not w[2] and f['vis'] != 'pub':
+                    ren[f['name']] = w[0]
+            # refuse if the renaming would collide with a name that stays
+            stay = {f['name'] for f in v['fields'] if f['name'] not in ren}
+            if ren and not (set(ren.values()) & stay):
+                amap.setdefault(a['path'], {})[v['name']] = ren
+                for f in v['fields']:
+                    if f['name'] in ren:
+                        f['actual_name'] = f['name']
+                        f['name'] = ren[f['name']]
+    if not amap:
+        return amap
+
+    def fix_proj(proj):
+        var = None
+        for e in proj:
+            if isinstance(e, dict):
+                if 'as' in e:
+                    var = e['as']
+                elif 'f' in e and e.get('of') in amap:
+                    vm = amap[e['of']]
+                    ren = vm.get(var) if var is not None else (next(iter(vm.values())) if len(vm) == 1 else None)
+                    if ren and e['f'] in ren:
+                        e['f'] = ren[e['f']]
+                    var = None
+                else:
+                    var = None
+
+    def walk(x):
+        if isinstance(x, dict):
+            if 'p' in x and isinstance(x['p'], list):
+                fix_proj(x['p'])
+            if x.get('k') == 'agg' and x.get('adt') in amap and isinstance(x.get('fields'), list):
+                ren = amap[x['adt']].get(x.get('variant'))
+                if ren:
+                    x['fields'] = [ren.get(n, n) for n in x['fields']]
+            for v in x.values():
+                walk(v)
+        elif isinstance(x, list):
+            for v in x:
+                walk(v)
+    for b in j['bodies']:
+        walk(b)
+    return amap
+
+
 class Facts:
     def __init__(self, path):
         with open(path) as f:
             self.j = json.load(f)
+        self.field_aliases = apply_field_aliases(self.j)
         self.path = path
         self.crate = self.j['crate']
         self.features = self.j.get('features', [])
